@@ -559,7 +559,8 @@ def run_nested_grad(c, log):
 
   def body(theta):
     def f(carry, x):
-      new = jnp.tanh(theta * carry + x) + 0.3 * carry * jnp.roll(carry, 1)
+      # bounded for every length (|new| <= 1.3): no blow-up for long scans
+      new = jnp.tanh(theta * carry + x) + 0.3 * jnp.sin(carry * jnp.roll(carry, 1))
       return new, jnp.sin(new) * x + carry
     return f
 
